@@ -84,7 +84,7 @@ def fam_loop():
             if n not in ("title", "style", "frame", "x-caf\u00e9"):
                 toks.append(tok("self", n, a))
         toks.append(tok("end", n))
-    toks += [tok("text", d="t&<x"), tok("comment", d="cmt"), tok("comment", d="[CDATA[x]]"), tok("doctype", d="html")]
+    toks += [tok("text", d="<i a=1>t&<x"), tok("comment", d="cmt"), tok("comment", d="[CDATA[x]]"), tok("doctype", d="html")]
     return dict(name="loop", recipes=recipes, tokens=toks)
 
 def fam_loopq():
@@ -388,7 +388,17 @@ def fam_nest():
             tok("start", "object"), tok("end", "object"), tok("text", d="txt")]
     return dict(name="nest", recipes=recipes, tokens=toks)
 
-FAMS = dict(nest=fam_nest, css=fam_css, conc_zero=fam_conc_zero, conc=fam_conc, io=fam_io, policy=fam_policy, ugc=fam_ugc, conf=fam_conf, loop=fam_loop, loopq=fam_loopq, link=fam_link, url=fam_url, forced=fam_forced, allow=fam_allow, style=fam_style)
+def fam_nestw():
+    """C09 / C08 deeper still: only prefixes of well-nested documents are explored (the family flag `wellnested`), over kept,
+    attribute-dependent, unknown, skipped and void elements."""
+    base = [call("NewPolicy"), call("AllowElements", names=["b"]), AA(["href"], ["a"]), AA(["title"], ["font"])]
+    recipes = [base, base + [call("AddSpaceWhenStrippingTag", b=True), call("SkipElementsContent", names=["span"])]]
+    toks = [tok("start", "a"), tok("start", "a", (("href", "/x"),)), tok("end", "a"), tok("start", "b"), tok("end", "b"),
+            tok("start", "font"), tok("end", "font"), tok("start", "object"), tok("end", "object"),
+            tok("start", "span"), tok("end", "span"), tok("start", "br"), tok("text", d="txt")]
+    return dict(name="nestw", recipes=recipes, tokens=toks, wellnested=True)
+
+FAMS = dict(nestw=fam_nestw, nest=fam_nest, css=fam_css, conc_zero=fam_conc_zero, conc=fam_conc, io=fam_io, policy=fam_policy, ugc=fam_ugc, conf=fam_conf, loop=fam_loop, loopq=fam_loopq, link=fam_link, url=fam_url, forced=fam_forced, allow=fam_allow, style=fam_style)
 
 if __name__ == "__main__":
     here = os.path.dirname(os.path.abspath(__file__))
